@@ -306,6 +306,209 @@ Proof.
 Qed.
 
 
+(* ---- totality: the lexer neither panics nor runs out of fuel ---- *)
+Definition benign {A} (x : outcome A) : Prop := match x with Ok _ | Err _ => True | _ => False end.
+Definition len (s : lst) : nat := length (inp s).
+
+Lemma Ext_len s new s' : Ext s new s' -> len s = (length (spell new) + len s')%nat.
+Proof. intros [_ E]. unfold len. now rewrite E, app_length. Qed.
+
+Lemma emit_benign k v rest s : benign (emit k v rest s).
+Proof. unfold emit. destruct (Nat.leb _ _); cbn; auto. Qed.
+Lemma lex_run_benign k p s : benign (Lexer.lex_run k p s).
+Proof. unfold Lexer.lex_run. destruct (span p (inp s)) as [v rest]. destruct (is_nil v); cbn; auto. apply emit_benign. Qed.
+
+Lemma bind_benign {A B} (x : outcome A) (f : A -> outcome B) :
+  benign x -> (forall a, x = Ok a -> benign (f a)) -> benign (bind x f).
+Proof. destruct x; cbn; auto. Qed.
+
+Lemma emit_len k v rest s s' : emit k v rest s = Ok s' -> len s' = length rest.
+Proof. intros H. apply emit_ok in H. destruct H as [_ ->]. reflexivity. Qed.
+Lemma lex_run_len k p s s' : Lexer.lex_run k p s = Ok s' -> (len s' < len s)%nat.
+Proof.
+  intros H. destruct (lex_run_sound _ _ _ _ H) as (v & A & Hv & _).
+  rewrite (Ext_len _ _ _ A). unfold spell. cbn. rewrite app_nil_r. destruct v; [contradiction|]. cbn. lia.
+Qed.
+
+Lemma lex_fp_loop_benign fuel : forall s, (len s < fuel)%nat -> benign (lex_field_path_loop isLetter isNumber fuel s).
+Proof.
+  induction fuel as [|f IH]; intros s Hf; [lia|]. cbn [lex_field_path_loop].
+  destruct (hd_is 46 (inp s)) as [rest|] eqn:Eh; cbn; auto.
+  apply hd_is_some in Eh.
+  apply bind_benign; [apply emit_benign|]. intros s1 E1.
+  apply bind_benign; [apply lex_run_benign|]. intros s2 E2.
+  apply IH. pose proof (emit_len _ _ _ _ _ E1). pose proof (lex_run_len _ _ _ _ E2).
+  unfold len in Hf. rewrite Eh in Hf. cbn in Hf. lia.
+Qed.
+Lemma lex_fp_loop_len fuel : forall s s', lex_field_path_loop isLetter isNumber fuel s = Ok s' -> (len s' <= len s)%nat.
+Proof.
+  intros s s' H. destruct (lex_fp_loop_sound _ _ _ H) as (tail & A & _). rewrite (Ext_len _ _ _ A). lia.
+Qed.
+Lemma lex_field_path_benign fuel s : (len s <= fuel)%nat -> benign (lex_field_path isLetter isNumber fuel s).
+Proof.
+  intros Hf. unfold lex_field_path. apply bind_benign; [apply lex_run_benign|]. intros s1 E1.
+  apply lex_fp_loop_benign. pose proof (lex_run_len _ _ _ _ E1). lia.
+Qed.
+Lemma lex_field_path_len fuel s s' : lex_field_path isLetter isNumber fuel s = Ok s' -> (len s' < len s)%nat.
+Proof.
+  unfold lex_field_path. intros H. destruct (Lexer.lex_run TIdent is_ident s) as [s1| | |] eqn:E1; try discriminate.
+  cbn [bind] in H. pose proof (lex_run_len _ _ _ _ E1). pose proof (lex_fp_loop_len _ _ _ H). lia.
+Qed.
+
+(* a segment lexer that is benign and consumes input, on states with at most n unread runes *)
+Definition SegTotal (n : nat) (f : lst -> outcome lst) : Prop :=
+  forall s, (len s <= n)%nat -> benign (f s) /\ (forall s', f s = Ok s' -> (len s' < len s)%nat).
+
+Lemma lex_segment_total n lexvar :
+  (forall lv, lexvar = Some lv -> SegTotal n lv) -> SegTotal n (lex_segment isLetter isNumber lexvar).
+Proof.
+  intros Hlv s Hn. unfold lex_segment.
+  destruct (inp s) as [|r rest] eqn:Ei; [cbn; split; [auto|discriminate]|].
+  destruct (isLetter r).
+  - split; [apply lex_run_benign|apply lex_run_len].
+  - destruct (r =? 42).
+    + destruct (hd_is 42 rest) as [rest'|] eqn:Eh.
+      * apply hd_is_some in Eh. split.
+        -- apply bind_benign; [apply emit_benign|]. intros; exact I.
+        -- intros s' H. destruct (emit TStarStar [42; 42] rest' s) as [s1| | |] eqn:E1; try discriminate.
+           cbn [bind] in H. inversion H; subst s'. unfold len. cbn [inp]. pose proof (emit_len _ _ _ _ _ E1) as L.
+           unfold len in L. rewrite L, Ei, Eh. cbn. lia.
+      * split; [apply emit_benign|]. intros s' H. pose proof (emit_len _ _ _ _ _ H) as L. unfold len in *. rewrite L, Ei. cbn. lia.
+    + destruct (r =? 123); [|cbn; split; [auto|discriminate]].
+      destruct lexvar as [lv|]; [|cbn; split; [auto|discriminate]].
+      apply (Hlv lv eq_refl). exact Hn.
+Qed.
+
+Lemma lex_segments_total n lexvar : SegTotal n (lex_segment isLetter isNumber lexvar) ->
+  forall fuel s, (len s <= n)%nat -> (len s < fuel)%nat ->
+  benign (lex_segments isLetter isNumber fuel lexvar s) /\
+  (forall s', lex_segments isLetter isNumber fuel lexvar s = Ok s' -> (len s' < len s)%nat).
+Proof.
+  intros Hseg. induction fuel as [|f IH]; intros s Hn Hf; [lia|]. cbn [lex_segments].
+  destruct (Hseg s Hn) as [B1 L1].
+  destruct (lex_segment isLetter isNumber lexvar s) as [s1| | |] eqn:E1; cbn in B1; try contradiction; cbn [bind].
+  - specialize (L1 s1 eq_refl).
+    destruct (hd_is 47 (inp s1)) as [rest|] eqn:Eh.
+    + apply hd_is_some in Eh. destruct (last s1); [cbn; split; [auto|discriminate]|].
+      destruct (emit TSlash [47] rest s1) as [s2| | |] eqn:E2; cbn [bind]; try (cbn; split; [auto|discriminate]).
+      * pose proof (emit_len _ _ _ _ _ E2) as L2.
+        assert (Hl2 : (len s2 < len s1)%nat) by (unfold len in *; rewrite L2, Eh; cbn; lia).
+        destruct (IH s2) as [B3 L3]; [lia|lia|]. split; [exact B3|]. intros s' H. specialize (L3 s' H). lia.
+      * pose proof (emit_benign TSlash [47] rest s1) as Be. rewrite E2 in Be. contradiction.
+      * pose proof (emit_benign TSlash [47] rest s1) as Be. rewrite E2 in Be. contradiction.
+    + cbn. split; [auto|]. intros s' H. inversion H; subst. exact L1.
+  - cbn. split; [auto|discriminate].
+Qed.
+
+Lemma lex_variable_total fuel : SegTotal fuel (lex_variable isLetter isNumber fuel).
+Proof.
+  intros s Hf.
+  assert (HS : SegTotal fuel (lex_segment isLetter isNumber None)) by (apply lex_segment_total; intros lv E; discriminate).
+  split.
+  - unfold lex_variable. destruct (hd_is 123 (inp s)) as [rest|] eqn:Eh; [|cbn; auto]. apply hd_is_some in Eh.
+    apply bind_benign; [apply emit_benign|]. intros s1 E1. pose proof (emit_len _ _ _ _ _ E1) as L1.
+    assert (Hl1 : (len s1 < len s)%nat) by (unfold len in *; rewrite L1, Eh; cbn; lia).
+    apply bind_benign; [apply lex_field_path_benign; lia|]. intros s2 E2. pose proof (lex_field_path_len _ _ _ E2) as L2.
+    destruct (hd_is 61 (inp s2)) as [rest2|] eqn:Eh2.
+    + apply hd_is_some in Eh2. apply bind_benign; [apply emit_benign|]. intros s3 E3. pose proof (emit_len _ _ _ _ _ E3) as L3.
+      assert (Hl3 : (len s3 < len s2)%nat) by (unfold len in *; rewrite L3, Eh2; cbn; lia).
+      destruct (lex_segments_total fuel None HS fuel s3) as [B4 _]; [lia|lia|].
+      apply bind_benign; [exact B4|]. intros s4 E4.
+      destruct (hd_is 125 (inp s4)); [apply emit_benign|cbn; auto].
+    + destruct (hd_is 125 (inp s2)); [apply emit_benign|cbn; auto].
+  - intros s' H. unfold lex_variable in H.
+    destruct (hd_is 123 (inp s)) as [rest|] eqn:Eh; [|discriminate]. apply hd_is_some in Eh.
+    destruct (emit TVarStart [123] rest s) as [s1| | |] eqn:E1; try discriminate. cbn [bind] in H.
+    pose proof (emit_len _ _ _ _ _ E1) as L1.
+    assert (Hl1 : (len s1 < len s)%nat) by (unfold len in *; rewrite L1, Eh; cbn; lia).
+    destruct (lex_field_path isLetter isNumber fuel s1) as [s2| | |] eqn:E2; try discriminate. cbn [bind] in H.
+    pose proof (lex_field_path_len _ _ _ E2) as L2.
+    destruct (hd_is 61 (inp s2)) as [rest2|] eqn:Eh2.
+    + apply hd_is_some in Eh2.
+      destruct (emit TEqual [61] rest2 s2) as [s3| | |] eqn:E3; try discriminate. cbn [bind] in H.
+      pose proof (emit_len _ _ _ _ _ E3) as L3.
+      assert (Hl3 : (len s3 < len s2)%nat) by (unfold len in *; rewrite L3, Eh2; cbn; lia).
+      destruct (lex_segments isLetter isNumber fuel None s3) as [s4| | |] eqn:E4; try discriminate. cbn [bind] in H.
+      destruct (lex_segments_total fuel None HS fuel s3) as [_ L4]; [lia|lia|]. specialize (L4 s4 E4).
+      destruct (hd_is 125 (inp s4)) as [rest4|] eqn:Eh4; [|discriminate]. apply hd_is_some in Eh4.
+      pose proof (emit_len _ _ _ _ _ H) as L5. unfold len in *. rewrite L5. rewrite Eh4 in L4. cbn in L4. lia.
+    + destruct (hd_is 125 (inp s2)) as [rest2|] eqn:Eh3; [|discriminate]. apply hd_is_some in Eh3.
+      pose proof (emit_len _ _ _ _ _ H) as L5. unfold len in *. rewrite L5. rewrite Eh3 in L2. cbn in L2. lia.
+Qed.
+
+Theorem lex_template_benign t : benign (lex_template isLetter isNumber t).
+Proof.
+  unfold lex_template. apply bind_benign; [|intros; exact I].
+  unfold lex_template_st. destruct (hd_is 47 t) as [rest|] eqn:Eh; [|cbn; auto]. apply hd_is_some in Eh.
+  apply bind_benign; [apply emit_benign|]. intros s1 E1. pose proof (emit_len _ _ _ _ _ E1) as L1.
+  assert (Hl1 : (len s1 < S (length t))%nat) by (rewrite L1, Eh; cbn; lia).
+  assert (HS : SegTotal (S (length t)) (lex_segment isLetter isNumber (Some (lex_variable isLetter isNumber (S (length t)))))).
+  { apply lex_segment_total. intros lv E. inversion E; subst lv. apply lex_variable_total. }
+  destruct (lex_segments_total _ _ HS (S (length t)) s1) as [B2 _]; [lia|lia|].
+  apply bind_benign; [exact B2|]. intros s2 E2.
+  destruct (hd_is 58 (inp s2)) as [rest2|].
+  - apply bind_benign; [apply emit_benign|]. intros s3 E3. unfold lex_verb.
+    apply bind_benign; [apply lex_run_benign|]. intros s4 E4. destruct (inp s4); [apply emit_benign|cbn; auto].
+  - destruct (is_nil (inp s2)); [apply emit_benign|cbn; auto].
+Qed.
+
+Lemma lex_path_loop_benign fuel : forall s, (len s < fuel)%nat -> benign (lex_path_loop isLetter isNumber fuel s).
+Proof.
+  induction fuel as [|f IH]; intros s Hf; [lia|]. cbn [lex_path_loop].
+  destruct (inp s) as [|r rest] eqn:Ei; [apply emit_benign|].
+  assert (Hstep : forall k, benign (do s1 <- emit k [r] rest s; do s2 <- Lexer.lex_run TPath (is_path isLetter isNumber) s1; lex_path_loop isLetter isNumber f s2)).
+  { intros k. apply bind_benign; [apply emit_benign|]. intros s1 E1. apply bind_benign; [apply lex_run_benign|]. intros s2 E2.
+    apply IH. pose proof (emit_len _ _ _ _ _ E1). pose proof (lex_run_len _ _ _ _ E2). unfold len in Hf. rewrite Ei in Hf. cbn in Hf. lia. }
+  destruct (N.eqb_spec r 47) as [->|H47]; [apply Hstep|].
+  destruct (N.eqb_spec r 58) as [->|H58]; [apply Hstep|]. exact I.
+Qed.
+Theorem lex_path_benign p : benign (lex_path isLetter isNumber p).
+Proof.
+  unfold lex_path. apply bind_benign; [|intros; exact I]. apply lex_path_loop_benign. unfold len. cbn. lia.
+Qed.
+
+(* ---- request paths: separator, text, separator, text, ..., end ---- *)
+Inductive PathToks : list token -> Prop :=
+| PT_end : PathToks [tEOF]
+| PT_slash v rest : v <> [] -> forallb (is_path isLetter isNumber) v = true -> PathToks rest ->
+    PathToks (tSlash :: Tok TPath v :: rest)
+| PT_colon v rest : v <> [] -> forallb (is_path isLetter isNumber) v = true -> PathToks rest ->
+    PathToks (tColon :: Tok TPath v :: rest).
+
+Lemma lex_path_loop_sound fuel : forall s s', lex_path_loop isLetter isNumber fuel s = Ok s' ->
+  exists new, Ext s new s' /\ PathToks new /\ inp s' = [] /\ (length (toks s') <= 64)%nat.
+Proof.
+  induction fuel as [|f IH]; intros s s' H; cbn in H; [discriminate|].
+  destruct (inp s) as [|r rest] eqn:Ei.
+  - assert (Ei' : inp s = [] ++ []) by (rewrite Ei; reflexivity).
+    destruct (emit_Ext _ _ _ _ _ H Ei') as (A & B & C & D). exists [tEOF]. split; [exact A|]. split; [constructor|auto].
+  - assert (Hstep : forall k sep, sep = Tok k [r] -> (sep = tSlash \/ sep = tColon) ->
+        (do s1 <- emit k [r] rest s; do s2 <- Lexer.lex_run TPath (is_path isLetter isNumber) s1; lex_path_loop isLetter isNumber f s2) = Ok s' ->
+        exists new, Ext s new s' /\ PathToks new /\ inp s' = [] /\ (length (toks s') <= 64)%nat).
+    { intros k sep Es Hsep Hs.
+      destruct (emit k [r] rest s) as [s1| | |] eqn:E1; try discriminate. cbn [bind] in Hs.
+      destruct (Lexer.lex_run TPath (is_path isLetter isNumber) s1) as [s2| | |] eqn:E2; try discriminate. cbn [bind] in Hs.
+      assert (Ei' : inp s = [r] ++ rest) by (rewrite Ei; reflexivity).
+      destruct (emit_Ext _ _ _ _ _ E1 Ei') as (A1 & _).
+      destruct (lex_run_sound _ _ _ _ E2) as (v & A2 & Hv & Hp & _).
+      destruct (IH _ _ Hs) as (new & A3 & G & Hi & Hl).
+      exists ([sep] ++ [Tok TPath v] ++ new). rewrite Es. split; [eapply Ext_trans; [exact A1|]; eapply Ext_trans; [exact A2|exact A3]|].
+      split; [|auto]. rewrite <- Es. destruct Hsep as [-> | ->]; constructor; auto. }
+    destruct (N.eqb_spec r 47) as [->|H47]; [apply (Hstep TSlash tSlash); auto|].
+    destruct (N.eqb_spec r 58) as [->|H58]; [apply (Hstep TVerb tColon); auto|]. discriminate.
+Qed.
+
+Theorem lex_path_sound p toks0 : lex_path isLetter isNumber p = Ok toks0 ->
+  PathToks toks0 /\ spell toks0 = p /\ (length toks0 <= 64)%nat.
+Proof.
+  unfold lex_path. destruct (lex_path_loop isLetter isNumber (S (length p)) (Lst p [] false)) as [sf| | |] eqn:E; try discriminate.
+  cbn [bind]. intros H. inversion H; subst toks0. clear H.
+  destruct (lex_path_loop_sound _ _ _ E) as (new & [A1 A2] & G & Hi & Hl). cbn in A1, A2.
+  rewrite app_nil_r in A1. rewrite A1, rev_involutive. split; [exact G|]. split.
+  - rewrite A2, Hi, app_nil_r. reflexivity.
+  - rewrite A1, rev_length in Hl. exact Hl.
+Qed.
+
 (* ---- completeness: every derivation of at most 64 tokens is accepted ---- *)
 Section Complete.
 Hypothesis sane : Sane isLetter isNumber.
@@ -545,6 +748,51 @@ Proof.
       cbn [length]; rewrite app_length, rev_length; cbn [length]; lia].
     cbn [bind inp]. rewrite emit_do by (cbn [length]; rewrite app_length, rev_length; cbn [length]; lia).
     cbn [bind toks]. f_equal. cbn [rev]. rewrite !rev_app_distr, rev_involutive. cbn [rev app]. rewrite <- !app_assoc. reflexivity.
+Qed.
+
+
+(* ---- the spelling of a variable's pattern determines its tokens ---- *)
+Lemma split_at_unique (x : N) (a c b d : str) :
+  ~ In x a -> ~ In x c -> a ++ x :: b = c ++ x :: d -> a = c /\ b = d.
+Proof.
+  revert c. induction a as [|y a IH]; intros [|z c] Ha Hc E; cbn in E.
+  - inversion E. auto.
+  - inversion E; subst. exfalso. apply Hc. now left.
+  - inversion E; subst. exfalso. apply Ha. now left.
+  - inversion E; subst. destruct (IH c) as [-> ->]; auto; intros H; [apply Ha|apply Hc]; now right.
+Qed.
+
+Lemma PSeg_no_slash ts b : PSeg ts b -> ~ In 47 (spell ts).
+Proof.
+  intros [v Hv| |]; cbn; try (intros [H|[H|[]]]; discriminate); try (intros [H|[]]; discriminate).
+  rewrite app_nil_r. destruct (lit_ok_inv _ Hv) as (x & v' & -> & _ & Hp). intros Hin.
+  rewrite forallb_forall in Hp. specialize (Hp 47 Hin). rewrite sane_literal in Hp; [discriminate|cbn; auto 10].
+Qed.
+
+Lemma PSeg_spell_inj t1 b1 t2 b2 : PSeg t1 b1 -> PSeg t2 b2 -> spell t1 = spell t2 -> t1 = t2.
+Proof.
+  intros [v1 H1| |] [v2 H2| |]; cbn; rewrite ?app_nil_r; intros E; try discriminate; auto.
+  - now subst.
+  - subst v1. destruct (lit_ok_inv _ H1) as (x & v' & E & Hx & _). inversion E; subst. rewrite (sane_letter 42) in Hx; [discriminate|cbn; auto].
+  - subst v1. destruct (lit_ok_inv _ H1) as (x & v' & E & Hx & _). inversion E; subst. rewrite (sane_letter 42) in Hx; [discriminate|cbn; auto].
+  - subst v2. destruct (lit_ok_inv _ H2) as (x & v' & E & Hx & _). inversion E; subst. rewrite (sane_letter 42) in Hx; [discriminate|cbn; auto].
+  - subst v2. destruct (lit_ok_inv _ H2) as (x & v' & E & Hx & _). inversion E; subst. rewrite (sane_letter 42) in Hx; [discriminate|cbn; auto].
+Qed.
+
+Theorem PSegs_spell_inj p1 b1 : PSegs p1 b1 -> forall p2 b2, PSegs p2 b2 -> spell p1 = spell p2 -> p1 = p2.
+Proof.
+  induction 1 as [t1 b1 G1|t1 r1 b1 G1 HS1 IH]; intros p2 b2 HS2 E.
+  - destruct HS2 as [t2 b2 G2|t2 r2 b2 G2 HS2].
+    + eapply PSeg_spell_inj; eauto.
+    + exfalso. rewrite spell_app in E. change (spell (tSlash :: r2)) with (47 :: spell r2) in E.
+      apply (PSeg_no_slash _ _ G1). rewrite E. apply in_or_app. right. now left.
+  - destruct HS2 as [t2 b2 G2|t2 r2 b2 G2 HS2].
+    + exfalso. rewrite spell_app in E. change (spell (tSlash :: r1)) with (47 :: spell r1) in E.
+      apply (PSeg_no_slash _ _ G2). rewrite <- E. apply in_or_app. right. now left.
+    + rewrite !spell_app in E. change (spell (tSlash :: r1)) with (47 :: spell r1) in E.
+      change (spell (tSlash :: r2)) with (47 :: spell r2) in E.
+      destruct (split_at_unique 47 _ _ _ _ (PSeg_no_slash _ _ G1) (PSeg_no_slash _ _ G2) E) as [E1 E2].
+      rewrite (PSeg_spell_inj _ _ _ _ G1 G2 E1), (IH _ _ HS2 E2). reflexivity.
 Qed.
 
 End Complete.
